@@ -1,7 +1,9 @@
 //! Deterministic simulation with fault injection for icy_engine. See /verif/DESIGN.md.
 
 mod evidence;
+mod exec_load;
 mod fsbox;
+mod gen_load;
 mod gen_sixel;
 mod gen_term;
 mod guard;
